@@ -293,6 +293,15 @@ def run_case(ctx, case):
                         if c != expected:
                             problems.append(('stored-operation-reinvoked' if c > expected else 'call-count',
                                              'summary %s invoked %d times on simulated data, expected %d (consumed batches the pool did not hold)' % (x, c, expected)))
+                # a batch for which the pool holds every requested output and every store needs no computation at all
+                wanted = set(['d'] + list(params) + list(step['outputs'])) | set(stores_now)
+                if wanted <= set(stores_now):
+                    for i in range(B):
+                        if all(i in held.get(x, set()) for x in wanted):
+                            ctx.event('fully_held_batches_checked')
+                            if calls.get(('S', i), 0):
+                                problems.append(('needless-simulation-for-fully-held-batch',
+                                                 'simulator invoked for batch %d although the pool holds every requested output of it' % i))
                 if loaded_any:
                     ctx.event('steps_loading_from_pool')
             else:
